@@ -33,7 +33,10 @@ func MakeFromRequest(r *http.Request) CacheKey {
 	}
 	normHost := strings.ToLower(r.Host)
 	normPath := path.Clean(r.URL.Path)
-	stringKey := fmt.Sprintf("%s|%s|%s|%s|%s", scheme, r.Method, normHost, normPath, r.URL.RawQuery)
+	// Every component is prefixed with its length: a '|' inside a component (e.g. "/a|b?c" vs
+	// "/a?b|c") must not be able to shift the component boundaries and alias two requests.
+	stringKey := fmt.Sprintf("%s|%d:%s|%d:%s|%d:%s|%d:%s", scheme,
+		len(r.Method), r.Method, len(normHost), normHost, len(normPath), normPath, len(r.URL.RawQuery), r.URL.RawQuery)
 	slog.Debug("Creating cache key", "key", stringKey)
 	return FromString(stringKey)
 }
